@@ -59,6 +59,10 @@ pub fn sig_tt(v: u32) -> u64 {
     if v == c { bits |= 16384; }
     if u32::from(c) == v { bits |= 32768; }
     if TagTypeId::from(c) == i { bits |= 65536; }
+    // the remaining public routes to / from the number
+    if t.val() == v { bits |= 131072; }
+    if c.val() == v { bits |= 262144; }
+    if TagTypeId::new(v) == i { bits |= 524288; }
     let back: u32 = t.into();
     let via: u32 = TagTypeId::from(TagType::from(i)).into();
     (tt_index(t) << 48) ^ (bits << 32) ^ (back as u64) ^ ((via as u64) << 7)
